@@ -168,6 +168,7 @@ def finish(prop, tier, seed, results, t0, *, level="model_checking", bounds=None
         "configurations_with_violation": sum(1 for r in results if r.get("violations")),
         "configurations_inconclusive": len(inconc),
         "inconclusive_reasons": dict(sorted(reasons.items(), key=lambda kv: -kv[1])[:12]),
+        "inconclusive_examples": [{"sig": r["sig"], "why": r["inconclusive"][0][:160]} for r in inconc[:12]],
         "paths_explored": states,
         "path_coverage_proved_complete": sum(1 for r in results if r.get("complete")),
         "symbolic_runs": sum(r.get("runs", 0) for r in results),
